@@ -3,10 +3,10 @@
 package main
 
 import (
-	"go/types"
 	"encoding/json"
 	"flag"
 	"fmt"
+	"go/types"
 	"os"
 	"runtime/debug"
 	"strconv"
